@@ -46,6 +46,17 @@ CLAIMED.update({
    note="The only simulator-owned dimension is the operation history (no fault beyond reordering/repetition). FortranNameManager.name_function is not used by the generator, so it is exercised for distinctness/legality but not against the reserved list. User names never start with dagrt_ (documented as reserved)."),
 })
 
+CLAIMED.update({
+ "C03": dict(engine="E-fort", level="exploration", design_ref="DESIGN.md §4 E-fort / C03",
+   technique="deterministic simulation: seeded run-call histories against the real compiled Fortran module under a generated driver, state after every call compared with the real interpreter (refinement)",
+   text="Seeded Fortran-subset builder programs (user-type vectors with registered right-hand sides and CallCode templates, real scalars, arrays, loops, guarded blocks, conditional expressions, built-ins, 1..3 phases with guarded fail/switch/restart/raise) go through the whole real Fortran generator and gfortran; a generated driver initialises the seeded state, performs 1..8 run calls and prints next phase, <t>, <dt>, every persistent variable and the returned state/time/time-id after each call; each block is compared with the real interpreter after the corresponding step (failed and switched steps included; a Raise must stop the program at the same call). A compiler diagnostic or a generator exception on a program whose kinds can be inferred is a violation.",
+   note="gfortran 12 at -O0; floats compared with relative tolerance 1e-12; guards only compare exactly computed scalars so they cannot flip between back ends; programs whose kinds cannot be inferred are outside the subset (discarded and counted, ~8%)."),
+ "C12": dict(engine="E-fort", level="exploration", design_ref="DESIGN.md §4 E-fort / C12",
+   technique="deterministic simulation with memory-fault detection: seeded sequences of completed/failed/switched run calls followed by shutdown against the real module built with AddressSanitizer/LeakSanitizer/UBSan",
+   text="The C03 pipeline with a workload biased to user-type temporaries that are live across guarded early exits, moved to/from persistent variables, overwritten, yielded then overwritten or never used; the module and driver are built with -fsanitize=address,undefined, run for 1..8 calls and shut down. Verdict classes: leak, double-free, use-after-free, invalid-pointer, null-deref, out-of-bounds, shutdown-reported-leak, crash, stderr; each report is mapped back through the '! {{{ statement' comments to the IR statement.",
+   note="LSan reports storage unreachable at exit; storage still reachable from the driver's state after shutdown is caught only by shutdown's own 'leaked reference' report. Programs in which a Raise stops the program are excluded (the property is about runs followed by shutdown)."),
+})
+
 NOT_APPLICABLE = {
  "C06": "pure tree->tree function (simplify_ast) quantified over trees x truth assignments: no schedule, history, fault or configuration for a simulator to own; reached only indirectly through C01/C05",
  "C07": "rewriting passes are pure structured-program->structured-program functions run top to bottom; nothing to schedule or inject; reached only indirectly through C03",
